@@ -1417,15 +1417,20 @@ Stylesheet::processExtensionNamespace(
             StylesheetConstructionContext&  theConstructionContext,
             const XalanDOMString&           uri)
 {
-    XalanMemMgrAutoPtr<ExtensionNSHandler>  theGuard(
-                                                theConstructionContext.getMemoryManager(),
-                                                ExtensionNSHandler::create(
-                                                    uri,
-                                                    theConstructionContext.getMemoryManager()));
+    // Two prefixes may be bound to the same namespace.  The map keeps
+    // the first handler, so a second one would never be deleted.
+    if (m_extensionNamespaces.find(uri) == m_extensionNamespaces.end())
+    {
+        XalanMemMgrAutoPtr<ExtensionNSHandler>  theGuard(
+                                                    theConstructionContext.getMemoryManager(),
+                                                    ExtensionNSHandler::create(
+                                                        uri,
+                                                        theConstructionContext.getMemoryManager()));
 
-    m_extensionNamespaces.insert(uri, theGuard.get());
+        m_extensionNamespaces.insert(uri, theGuard.get());
 
-    theGuard.release();
+        theGuard.release();
+    }
 
     m_namespacesHandler.addExtensionNamespaceURI(theConstructionContext, uri);
 }
